@@ -108,16 +108,18 @@ Definition model_state (s : fs) (probe : list string) : ostate :=
         | Ok ds => Ok (map (fun d => (ts_of d, snd (fst d))) ds)
         | _ => Err end, [])) names).
 
-(* the prefix search of the writer / of the reader's recovery returns one of the model's candidates *)
+(* the prefix search of the writer / of the reader's recovery returns exactly what the literal model of the
+   bisection returns (and that is one of the set-level candidates, or nothing when there is none) *)
 Definition targets_match (nm : names) (s : fs) (st : ostate) : bool :=
   forallb (fun e =>
     let '(i, _, _, tg) := e in
     forallb (fun t =>
       let '(ts, w, r) := t in
-      match prefix_matches nm s i ts with
-      | [] => String.eqb w (n_tsname nm ts) && String.eqb r ""
-      | cs => existsb (String.eqb w) cs && existsb (String.eqb r) cs
-      end) tg) (os_per st).
+      String.eqb w (write_target nm s i ts) && String.eqb r (recover_target nm s i ts)
+      && match prefix_matches nm s i ts with
+         | [] => String.eqb w (n_tsname nm ts) && String.eqb r ""
+         | cs => existsb (String.eqb w) cs && existsb (String.eqb r) cs
+         end) tg) (os_per st).
 
 (* ---- directory-level projection of the op list *)
 Definition op_eqb (a b : fsop) : bool :=
@@ -235,6 +237,13 @@ Definition state_ok (before final s : ostate) : bool :=
          && forallb (fun d => negb (artifact (snd (fst d)))) (days_of w)
          && forallb (fun d => negb (artifact (snd d))) (match l with Ok x => x | _ => [] end)
          && forallb (fun t => negb (artifact (snd (fst t))) && negb (artifact (snd t))) tg
+         (* the search finds the day's directory whenever the walk sees one *)
+         && forallb (fun t =>
+              let '(ts, wt, rt) := t in
+              match map (fun d => snd (fst d)) (filter (fun d => fst (fst d) =? ts) (days_of w)) with
+              | [] => true
+              | ns => existsb (String.eqb wt) ns && existsb (String.eqb rt) ns
+              end) tg
          && forallb (fun ts =>
               let v := view_of w ts in
               list_eqb oday_eqb v (view_of wb ts) || list_eqb oday_eqb v (view_of wf ts))
